@@ -95,6 +95,17 @@ def gen_files(ctx, d):
                 cat['entries'].append({'msgid': 'tricky', 'msgstr': '.xn--a. +AGE- \\x80 =?x?= aGk= \x1b$B'})
             files.append((w(d, 'c%d.po' % i, pogen.render(cat)), 'component:' + field))
             i += 1
+    # a header field given twice with different values (some checks return early on that), next to the flagged plural entry of the base catalog
+    for field in COMPONENT_STRINGS:
+        vals = COMPONENT_STRINGS[field]
+        for a, b in [(vals[0], vals[1]), (vals[-1], vals[0])]:
+            cat = pogen.base_catalog()
+            orig = dict(cat['header']).get(field, '')
+            cat['header'] = [(k, v) for (k, v) in cat['header'] if k != field] + [(field, orig), (field, a.replace('\n', ' '))] + ([(field, b.replace('\n', ' '))] if rng.random() < 0.5 else [])
+            cat['entries'].append({'msgid': '%(n)d file', 'msgid_plural': '%(n)d files', 'msgstr_plural': ['%(n)d plik', '%(n)d pliki', '%(n)d plików'], 'flags': ['python-format']})
+            cat['entries'].append({'msgid': '{n} file', 'msgid_plural': '{n} files', 'msgstr_plural': ['{n} plik', '{n} pliki', '{n} plików'], 'flags': ['python-brace-format']})
+            files.append((w(d, 'dupf%d.po' % i, pogen.render(cat)), 'duplicate-header-field:' + field))
+            i += 1
     for cs in ['idna', 'punycode', 'utf-7', 'utf-16', 'utf-32', 'hz', 'iso2022_jp', 'rot13', 'base64', 'hex', 'uu', 'quopri', 'zlib', 'bz2', 'unicode_escape',
                'raw_unicode_escape', 'undefined', 'charmap', 'utf_8_sig', 'cp037', 'cp500', 'mbcs', 'oem', 'string-escape', 'unicode_internal']:
         for body in ['.xn--a.', 'xn--', '+AGE-', '+-', '~{', '\\u12', '\\N{x}', 'x', '=?', '\x1b$B']:
